@@ -4,6 +4,7 @@ import (
 	"bytes"
 	"encoding/json"
 	"fmt"
+	"strings"
 	"sync"
 
 	"github.com/peterstace/simplefeatures/geom"
@@ -75,7 +76,47 @@ func c10Decoders(c C10Case, pool []geom.Geometry, desc func() string, cx *h.Ctx)
 			}, func(b []byte) geom.Geometry { v, _ := geom.UnmarshalGeoJSON(b, geom.NoValidate{}); return v }})
 		}
 	}
+	// a destination scanned into twice: the value held from the first scan is not changed by the second
+	for i, g := range pool {
+		if i >= 4 || g.Validate() != nil {
+			continue
+		}
+		var d geom.Geometry
+		if d.Scan(g.AsBinary()) != nil {
+			continue
+		}
+		held := d
+		before := apienum.Repr(reflect.ValueOf(held))
+		for _, next := range []geom.Geometry{g.Reverse(), pool[(i+1)%len(pool)], g} {
+			if next.Validate() == nil {
+				_ = d.Scan(next.AsBinary())
+			}
+		}
+		if after := apienum.Repr(reflect.ValueOf(held)); after != before {
+			return h.Failf("pure/scan-overwrites-held-copy", "a copy of a Scan destination changed when the destination was scanned into again:\n%s\nvs\n%s%s", clip(before, 300), clip(after, 300), desc())
+		}
+	}
+	// documents whose positions mix 2 and 3 (and more) elements: the dimensionality decision is global and must not
+	// depend on the order in which the decoder happens to meet the lengths
+	for i, doc := range c10MixedDocs {
+		encs = append(encs, enc{fmt.Sprintf("UnmarshalGeoJSON(mixed-dimension document %d)", i), []byte(doc), func(b []byte) (s string, err error) {
+			defer func() {
+				if r := recover(); r != nil {
+					s, err = fmt.Sprintf("panic: %v", r), nil
+				}
+			}()
+			g, e := geom.UnmarshalGeoJSON(b, geom.NoValidate{})
+			if e != nil {
+				return "error: " + e.Error(), nil
+			}
+			return g.AsText(), nil
+		}, nil})
+	}
+	reps := 2
 	for _, e := range encs {
+		if strings.Contains(e.name, "mixed-dimension") {
+			reps = 12
+		}
 		keep := append([]byte(nil), e.buf...)
 		first, err := e.dec(e.buf)
 		if err != nil {
@@ -84,7 +125,7 @@ func c10Decoders(c C10Case, pool []geom.Geometry, desc func() string, cx *h.Ctx)
 		if !bytes.Equal(e.buf, keep) {
 			return h.Failf("pure/input-buffer-modified", "%s modified the caller's buffer:\nbefore %x\nafter  %x%s", e.name, clip(string(keep), 200), clip(string(e.buf), 200), desc())
 		}
-		for r := 0; r < 2; r++ {
+		for r := 0; r < reps; r++ {
 			again, err := e.dec(e.buf)
 			if err != nil || again != first {
 				return h.Failf("deterministic/decoder-repeat", "%s: decoding the same buffer again gives a different result (%v):\n%s\nvs\n%s%s", e.name, err, clip(first, 300), clip(again, 300), desc())
@@ -130,6 +171,13 @@ func c10Decoders(c C10Case, pool []geom.Geometry, desc func() string, cx *h.Ctx)
 		cx.Count("decoder_buffers_checked", 1)
 	}
 	return nil
+}
+
+var c10MixedDocs = []string{
+	`{"type":"GeometryCollection","geometries":[{"type":"Point","coordinates":[1,2]},{"type":"Point","coordinates":[1,2,3]},{"type":"LineString","coordinates":[[1,2],[3,4,5]]},{"type":"MultiPoint","coordinates":[[0,0],[1,1,1,9]]}]}`,
+	`{"type":"MultiLineString","coordinates":[[[0,0,0],[1,1,1]],[[2,2],[3,3]],[[4,4,4,4],[5,5]]]}`,
+	`{"type":"Polygon","coordinates":[[[0,0,1],[4,0],[4,4,1,2],[0,0]],[[1,1],[2,1,5],[2,2],[1,1,5]]]}`,
+	`{"type":"GeometryCollection","geometries":[{"type":"Point","coordinates":[1,2,3]},{"type":"GeometryCollection","geometries":[{"type":"Point","coordinates":[1,2]},{"type":"Point","coordinates":[1,2,3,4,5]}]}]}`,
 }
 
 func containsEmptyRing(g gm.G) bool {
